@@ -29,6 +29,14 @@ def build_pool(rng, quick):
                 authcat.FAULTS[fault](s, rng)
             pol, a = s.build()
             pool.append((f"auth/{kind}/{fault}", "auth", pol, a))
+            if fault in (None, "signed-by-other-key"):
+                # the RP's list of expected origins is long, shared between calls, and the match sits deep inside it
+                s2 = authcat.Scn(kind)
+                if fault:
+                    authcat.FAULTS[fault](s2, rng)
+                s2.exp_origin = authcat.long_origin_list(s2.origin, 40 if kind != "RS256" else 300)
+                pol2, a2 = s2.build()
+                pool.append((f"auth/{kind}/{fault}/long-origin-list", "auth", pol2, a2))
         # corrupt stored keys, assertion genuinely signed
         s = authcat.Scn(kind)
         pol, a = s.build()
@@ -67,7 +75,7 @@ def build_pool(rng, quick):
                 regcat.c_challenge_other(s, rng)
             if fmt in ("packed", "tpm", "fido-u2f") and variant in ("ok", "ok-later", "expired"):
                 s.roots_mode = "several"
-            s.exp_origin = [s.origin, "https://second.example"]
+            s.exp_origin = [s.origin, "https://second.example"] if fmt not in ("none", "packed", "apple") else authcat.long_origin_list(s.origin, 40)
             s.algs = [-7, -257, -8]
             pd, reg = regsim.build(s)
             if variant == "ok":
